@@ -121,6 +121,7 @@ def vecStep (d : DState) (line : String) : DState × String :=
       | some v, some md => doOp (.cstore c k v md) | _, _ => bad
   | ["cdel", c, k] => doOp (.cdelete c k)
   | ["cbuild", c] => doOp (.cbuild c)
+  | ["inval", c] => doOp (.invalidate (if c = "-" then none else some c))
   | ["get", k] => match getDefault d.st k with
       | some v => (d, "ok " ++ showInts v) | none => (d, "err not_found")
   | ["cget", c, k] => match getColl d.st c k with
